@@ -38,6 +38,9 @@ static inline int idx(struct cds_lfq_node_rcu *n) {
 static inline void enq(int i) { h_ins_call(i); cds_lfq_node_init_rcu(NP(i)); cds_lfq_enqueue_rcu(&Q, NP(i)); h_ins_ret(i, 0); }
 static inline int deq(int j) { uint32_t c = h_rem_call(); struct cds_lfq_node_rcu *n = cds_lfq_dequeue_rcu(&Q); int v = idx(n); h_rem_ret(j, c, v); return v; }
 void prologue(void) { cds_lfq_init_rcu(&Q, my_call_rcu); }
+/* sequential wrappers kept out of line: the epilogue's counted loops and the library's retry loops get different unwinding bounds */
+static __attribute__((noinline)) int deq_seq(int j) { return deq(j); }
+static __attribute__((noinline)) int destroy_seq(void) { return cds_lfq_destroy_rcu(&Q); }
 #if SCEN == 1
 void t1(void) { enq(0); enq(2); }
 void t2(void) { enq(1); int v = deq(0); rt_cover(v == H_NONE, "a dequeue saw an empty queue"); }
@@ -46,18 +49,18 @@ void t3(void) { int a = deq(1); int b = deq(2); rt_cover(a >= 0 && b >= 0, "one 
 #endif
 #if SCEN == 2     /* two threads, each enqueue then dequeue */
 void t1(void) { enq(0); int v = deq(0); rt_cover(v == 1, "thread 1 dequeued the other thread's node"); }
-void t2(void) { enq(1); deq(1); enq(2); }
+void t2(void) { enq(1); deq(1); }
 #define NDQ 2
 #endif
 void epilogue(void) {
   int left = 0; for (int i = 0; i < H_NN; i++) if (h_istarted(i) && !h_removed(i)) left = 1;
-  if (left) rt_assert(cds_lfq_destroy_rcu(&Q) != 0, "destroy refuses a non-empty queue");
-  for (int k = 0; k < H_NN + 1; k++) { int v = deq(NDQ + k); if (v == H_NONE) break; rt_assert(k < H_NN, "queue drains"); }
+  if (left) rt_assert(destroy_seq() != 0, "destroy refuses a non-empty queue");
+  for (int k = 0; k < H_NN + 1; k++) { int v = deq_seq(NDQ + k); if (v == H_NONE) break; rt_assert(k < H_NN, "queue drains"); }
   h_check_basic(); h_check_conservation(); h_check_fifo(); h_check_empty_answers();
   /* grace period over: run the deferred callbacks (frees the retired dummies exactly once) */
   int np = (int)rt_gget(62);
   for (int k = 0; k < 6; k++) if (k < np) PFN[k](PEND[k]);
   rt_cover(np >= 1, "a dummy node was retired through call_rcu");
-  rt_assert(cds_lfq_destroy_rcu(&Q) == 0, "destroy succeeds on an empty queue");
+  rt_assert(destroy_seq() == 0, "destroy succeeds on an empty queue");
   rt_assert(rt_gget(61) == (1u << rt_gget(63)) - 1, "every dummy node ever allocated has been freed exactly once (retired ones by their callback, the last by destroy)");
 }
